@@ -196,6 +196,22 @@ pub fn run_case(ctx: &Ctx, case: u64, ev: &mut Ev) {
             (TEv::Undef(_, _), None) => {}
             (e, got) => fail!("c09:find_terminal:definedness", format!("x={:?}: exact walk {} but find_terminal {:?}", x, e.brief(), got.map(|g| g.2))),
         }
+        // evaluate() routes like find_terminal: it returns the value of that terminal's function at x
+        let evl = match lib(case, "evaluate", || tree.evaluate(&gen::arr1(x)).map(|v| v.to_vec())) {
+            Ok(v) => v,
+            Err(p) => fail!("c09:evaluate:panic", p),
+        };
+        match (&exact, evl) {
+            (TEv::Val(node, val), Some(got)) => {
+                let nd = s.node(*node);
+                if let Err(e) = gen::value_matches(&nd.mat, &nd.bias, x, &got, val) {
+                    fail!("c09:evaluate:value", format!("x={:?}: find_terminal / the exact walk end in terminal {} but evaluate() returned {:?}: {}", x, node, got, e));
+                }
+                ev.inc("evaluate_agrees_with_find_terminal");
+            }
+            (TEv::Undef(_, _), None) => {}
+            (e, got) => fail!("c09:evaluate:definedness", format!("x={:?}: exact walk {} but evaluate {:?}", x, e.brief(), got)),
+        }
         // x satisfies the reported conditions of every node on its route (incl. the end node)
         let mut on_route: Vec<usize> = route.iter().map(|r| r.0).collect();
         if let TEv::Val(nn, _) = &exact {
